@@ -108,17 +108,59 @@ def sig(pred, detail):
     return f'C18/{pred}/{detail.split(":")[0]}'
 
 
+def iupac():
+    import re
+    from ..core import module_path
+    return [(int(z), s) for z, s in re.findall(r'\((\d+), "(\w+)"\)', module_path('ChythonModel.Spec.Iupac').read_text())]
+
+
+def lookup_predicates(z, sym):
+    """public lookups for one row of the STANDARD table (independent of how the library registers its classes)."""
+    from chython.periodictable import Element
+    try:
+        c = Element.from_symbol(sym)
+        ok = c.__name__ == sym and c().atomic_number == z
+    except Exception as e:
+        ok = False
+    yield ('from-symbol', sym, ok)
+    try:
+        c = Element.from_atomic_number(z)
+        ok = c.__name__ == sym and c().atomic_number == z
+    except Exception as e:
+        ok = False
+    yield ('from-atomic-number', sym, ok)
+    try:
+        from chython import smiles
+        m = smiles(f'[{sym}]')
+        ok = m.atom(1).atomic_number == z and m.atom(1).atomic_symbol == sym
+    except Exception:
+        ok = False
+    yield ('smiles-bracket-atom', sym, ok)
+
+
 def correspond(ctx):
     """Exhaustive evaluation on the live classes. A false predicate *is* a failing input for the property."""
     from chython.periodictable import Element
-    import json
-    syms = [c.__name__ for c in Element.__subclasses__()]
-    ctx.cov['programs'] = 9  # from_symbol, from_atomic_number, atomic_mass, isotope setter, charge/radical setters, _compiled_valence_rules, Query*, Dynamic*, pyx tables
-    zs = sorted(c.atomic_number.fget(None) for c in Element.__subclasses__())
-    if zs != list(range(1, 119)):
-        ctx.fail('C18/numbers-1-118', f'atomic numbers present: {zs}', {'predicate': 'numbers-1-118'})
-    from ..core import module_path
-    spec = dict(__import__('re').findall(r'\((\d+), "(\w+)"\)', module_path('ChythonModel.Spec.Iupac').read_text()))
+    ctx.cov['programs'] = 10  # from_symbol, from_atomic_number, smiles('[X]'), atomic_mass, isotope setter, charge/radical setters, _compiled_valence_rules, Query*, Dynamic*, pyx tables
+    for z, sym in iupac():
+        for pred, detail, ok in lookup_predicates(z, sym):
+            ctx.count((pred, detail))
+            ctx.dist(pred)
+            if not ok:
+                ctx.fail(sig(pred, detail), f'{pred} fails for {detail} (Z={z})', {'predicate': pred, 'symbol': sym, 'z': z, 'detail': detail})
+    std = dict(iupac())
+    syms = []
+    for c in Element.__subclasses__():
+        try:
+            z = c.atomic_number.fget(None)
+        except Exception:
+            z = None
+        if not isinstance(z, int):
+            continue  # helper base class, not an element; the lookups above decide whether its children are reachable
+        syms.append(c.__name__)
+        if std.get(z) != c.__name__:
+            ctx.fail(f'C18/agrees-with-standard/{c.__name__}', f'Z={z} is {std.get(z)} in the standard table, {c.__name__} here',
+                     {'predicate': 'agrees-with-standard', 'symbol': c.__name__})
     for sym in syms:
         for pred, detail, ok in predicates(sym):
             ctx.count((pred, detail))
@@ -127,11 +169,6 @@ def correspond(ctx):
                 ctx.sample({'predicate': pred, 'case': detail, 'holds': ok})
             if not ok:
                 ctx.fail(sig(pred, detail), f'{pred} fails for {detail}', {'predicate': pred, 'symbol': sym, 'detail': detail})
-        z = next(c for c in Element.__subclasses__() if c.__name__ == sym).atomic_number.fget(None)
-        ctx.count(('standard', sym))
-        if spec.get(str(z)) != sym:
-            ctx.fail(f'C18/agrees-with-standard/{sym}', f'Z={z} is {spec.get(str(z))} in the standard table, {sym} here',
-                     {'predicate': 'agrees-with-standard', 'symbol': sym})
     ctx.exhaustive = True
 
 
@@ -141,9 +178,15 @@ def search(ctx):
 
 
 def probe(inp):
-    if inp['predicate'] in ('numbers-1-118',):
+    if inp['predicate'] in ('from-symbol', 'from-atomic-number', 'smiles-bracket-atom'):
+        z = inp.get('z') or dict((s, z) for z, s in iupac())[inp['symbol']]
+        bad = [(p, d) for p, d, ok in lookup_predicates(z, inp['symbol']) if not ok and p == inp['predicate']]
+        return bool(bad), f'{inp["predicate"]}({inp["symbol"]}, Z={z}) ' + ('fails' if bad else 'holds')
+    if inp['predicate'] == 'agrees-with-standard':
         from chython.periodictable import Element
-        zs = sorted(c.atomic_number.fget(None) for c in Element.__subclasses__())
-        return zs != list(range(1, 119)), f'atomic numbers {zs}'
+        std = dict(iupac())
+        c = next((c for c in Element.__subclasses__() if c.__name__ == inp['symbol']), None)
+        z = c.atomic_number.fget(None) if c else None
+        return std.get(z) != inp['symbol'], f'{inp["symbol"]} has Z={z}; standard says {std.get(z)}'
     bad = [(p, d) for p, d, ok in predicates(inp['symbol']) if not ok and p == inp['predicate']]
     return bool(bad), f'{inp["predicate"]} on {inp["symbol"]}: failing cases {bad}' if bad else f'{inp["predicate"]} holds for {inp["symbol"]}'
